@@ -73,7 +73,10 @@ func verifSandbox(setup ...func(parent string)) (parent, dest string, check func
 		return len(vFSList(parent)) - len(vFSList(dest))
 	}
 	before := outside()
+	pst, _ := os.Lstat(parent)
 	check = func() {
+		pst2, perr := os.Lstat(parent)
+		vAssert(perr == nil && pst2.Mode() == pst.Mode(), "type or mode of the directory that holds the destination changed")
 		vAssert(outside() == before, "an object was created or removed outside the destination directory")
 		st0, err0 := os.Lstat(dest)
 		vAssert(err0 == nil && st0.IsDir(), "the destination directory itself was removed or replaced (by a symlink?)")
@@ -182,7 +185,7 @@ func VerifC18_UnTarIndex() {
 func VerifC18_Sequences() {
 	steps, max := 3, 2
 	if vTier() > 0 {
-		steps, max = 4, 3
+		steps, max = 4, 2 // 4 steps with names of up to 3 bytes did not finish within the 900 s budget
 	}
 	a := newVerifArchive()
 	a.entry(os.ModeDir | 0755)
@@ -278,5 +281,35 @@ func VerifC18_DeviceOverSymlink() {
 	_ = err
 	after, serr := os.Lstat(outside)
 	vAssert(serr == nil && after.Mode() == before.Mode() && after.ModTime().Equal(before.ModTime()), "a device node outside the destination had its mode or time changed")
+	check()
+}
+
+// VerifC18_SameNameTwice: hostile archives that use one name several times in the root
+// directory: three entries called "a", each the solver's pick of directory (closed at once),
+// regular file or symlink (symbolic target).  Whatever replaces whatever, nothing outside the
+// destination changes - also not by metadata that is applied after the last entry.
+func VerifC18_SameNameTwice() {
+	a := newVerifArchive()
+	a.entry(os.ModeDir | 0755)
+	for k := 0; k < 3; k++ {
+		a.filename("a")
+		switch vChoose("kind", 3) {
+		case 0:
+			a.entry(os.ModeDir | 0777)
+			a.goodbye()
+		case 1:
+			a.entry(0666)
+			a.payload([]byte("x"))
+		case 2:
+			a.entry(os.ModeSymlink | 0777)
+			a.symlink(verifSymName("target", 4))
+		}
+	}
+	a.goodbye()
+	_, dest, check := verifSandbox()
+	fs := NewLocalFS(dest, LocalFSOptions{})
+	err := UnTar(context.Background(), bytes.NewReader(a.buf.Bytes()), fs)
+	vCover("untar-returned")
+	_ = err
 	check()
 }
